@@ -36,6 +36,7 @@ CONSTANTS NSlots,      \* agents live in slots 1..NSlots
           Lams,        \* values of lambda, each <<Ln, Ld>> in lowest terms
           ValsLo,      \* context values used for sizes 1, 2
           ValsHi,      \* context values used for sizes >= 3
+          Kinds,       \* mutation kinds explored by the model checker (subset of MutKinds)
           MaxDec,      \* bound: decisions counted in one matrix
           MaxOps       \* bound: operations
 
@@ -59,9 +60,13 @@ RECURSIVE Gcd(_, _)
 Gcd(a, b) == IF b = 0 THEN Abs(a) ELSE Gcd(b, a % b)         \* a % b is in 0..b-1 for b > 0
 RECURSIVE SumTo(_, _)
 SumTo(f, n) == IF n = 0 THEN 0 ELSE f[n] + SumTo(f, n - 1)
-Dot(u, v, k)     == SumTo([i \in 1..k |-> u[i] * v[i]], k)
+Dot(u, v, k)     == CASE k = 1 -> u[1] * v[1]
+                      [] k = 2 -> u[1] * v[1] + u[2] * v[2]
+                      [] k = 3 -> u[1] * v[1] + u[2] * v[2] + u[3] * v[3]
+                      [] OTHER -> SumTo([i \in 1..k |-> u[i] * v[i]], k)
 MatVec(A, v, k)  == TLCEval([i \in 1..k |-> Dot(A[i], v, k)])
-MatMul(A, B, k)  == TLCEval([i \in 1..k |-> [j \in 1..k |-> SumTo([t \in 1..k |-> A[i][t] * B[t][j]], k)]])
+Col(B, j, k)     == [t \in 1..k |-> B[t][j]]
+MatMul(A, B, k)  == TLCEval([i \in 1..k |-> [j \in 1..k |-> Dot(A[i], Col(B, j, k), k)]])
 Outer(u, v, k)   == TLCEval([i \in 1..k |-> [j \in 1..k |-> u[i] * v[j]]])
 Idm(k, c)        == TLCEval([i \in 1..k |-> [j \in 1..k |-> IF i = j THEN c ELSE 0]])
 MatAdd(A, B, k)  == TLCEval([i \in 1..k |-> [j \in 1..k |-> A[i][j] + B[i][j]]])
@@ -188,7 +193,7 @@ Outs == {"reinit", "carry"}
 CreateAny  == \E a \in Slots, k \in 1..MaxDim : Create(a, k)
 DecideAny  == \E a \in Slots : Live(ag[a]) /\ \E g \in Feats(ag[a].dim) : Decide(a, g)
 LearnAny   == \E a \in Slots : Learn(a)
-MutateAny  == \E a \in Slots, kind \in MutKinds, k \in 1..MaxDim, out \in Outs : Mutate(a, kind, k, out)
+MutateAny  == \E a \in Slots, kind \in Kinds, k \in 1..MaxDim, out \in Outs : Mutate(a, kind, k, out)
 CloneAny   == \E a, c \in Slots, out \in Outs : Clone(a, c, out)
 SaveAny    == \E a \in Slots, f \in Files : Save(a, f)
 LoadNewAny == \E f \in Files, c \in Slots, out \in Outs : LoadNew(f, c, out)
